@@ -41,14 +41,14 @@ var (
 	c19Ports   = []int{-1, 0, 1, 80, 65535, 65536, 65537, 70000}
 	c19Protos  = []string{"udp", "tcp", "icmp", "", "UDP", "sctp"}
 	c19Methods = []string{"", "syn", "sack", "prefer_sack", "syn_socket", "bogus", "SYN"}
-	c19Targets = []string{"v4", "v4port", "v6", "v6br", "v6brport"}
+	c19Targets = []string{"v4", "v4port", "v6", "v6br", "v6brport", "v4name", "v6name", "v4dual", "v6dual", "v4nameport", "v4port0", "v6brport0", "v4port65536"}
 )
 
 func checkC19() fw.Check {
 	return fw.Check{
 		Prop:  "C19",
 		Level: "exploration",
-		Rule: "grid over (MinTTL, MaxTTL) in {-300,-1,0,1,2,30,254..258,300,511,65536,65537,2^31-1}^2, ports {-1,0,1,80,65535,65536,65537,70000}, protocols {udp,tcp,icmp,\"\",UDP,sctp}, TCP methods {\"\",syn,sack,prefer_sack,syn_socket,bogus,SYN}, target literal forms {IPv4, IPv4:port, IPv6, [IPv6], [IPv6]:port}, through RunTraceroute and through server.TracerouteHandler, on a silent simulated network; oracle: a request carrying a value that cannot be on the wire must be rejected; a request that succeeds must have emitted exactly one probe for every TTL of [Min,Max] and nothing else, all to the requested address and port (default 33434 when 0, the literal's port when given) and of the requested kind; a process crash is attributed to the journaled case. " +
+		Rule: "grid over (MinTTL, MaxTTL) in {-300,-1,0,1,2,30,254..258,300,511,65536,65537,2^31-1}^2, ports {-1,0,1,80,65535,65536,65537,70000}, protocols {udp,tcp,icmp,\"\",UDP,sctp}, TCP methods {\"\",syn,sack,prefer_sack,syn_socket,bogus,SYN}, target forms {IPv4, IPv4:port, IPv6, [IPv6], [IPv6]:port, host names answered from a private hosts file (v4-only, v6-only, dual with either family wanted, name:port), literals with port 0 / 65536}, through RunTraceroute and through server.TracerouteHandler, on a silent simulated network; oracle: a request carrying a value that cannot be on the wire must be rejected; a request that succeeds must have emitted exactly one probe for every TTL of [Min,Max] and nothing else, all to the requested address and port (default 33434 when 0, the literal's port when given) and of the requested kind; a process crash is attributed to the journaled case. " +
 			"distinct_nontrivial counts distinct (protocol, method, ttl-class pair, port-class, target form, entry point, outcome) tuples executed",
 		Workers:       8,
 		MinNontrivial: 100,
@@ -114,6 +114,14 @@ func checkC19() fw.Check {
 			}
 			const batch = 12
 			var cases []fw.Case
+			// combinations: a SACK-capable target, path runs AND end-to-end probes in one request - the runs use the
+			// requested method, only the end-to-end probes are SYN
+			for _, m := range []string{"sack", "prefer_sack"} {
+				for _, qe := range [][2]int{{2, 2}, {1, 3}, {3, 1}} {
+					m, qe := m, qe
+					cases = append(cases, fw.Case{ID: fmt.Sprintf("C19/sack-mixed/%s/q%d-e%d", m, qe[0], qe[1]), Bubble: true, Run: func(c *fw.Ctx) { runC19SackMixed(c, c.ID, m, qe[0], qe[1]) }})
+				}
+			}
 			for i := 0; i < len(reqs); i += batch {
 				j := i + batch
 				if j > len(reqs) {
@@ -169,6 +177,7 @@ func runC19(c *fw.Ctx, id string, rq c19Req) {
 		addr = netip.MustParseAddr(fmt.Sprintf("fd00:204:%x::9", 100+c.Worker))
 	}
 	literalPort := 0
+	badLiteralPort := ""
 	host := addr.String()
 	switch rq.targetForm {
 	case "v4port":
@@ -179,6 +188,24 @@ func runC19(c *fw.Ctx, id string, rq c19Req) {
 	case "v6brport":
 		literalPort = 8082
 		host = fmt.Sprintf("[%s]:%d", addr, literalPort)
+	case "v4name", "v6name", "v4dual", "v6dual":
+		// a host name answered from the hosts file (see setupNS): must behave exactly like the literal
+		host = fmt.Sprintf("verif-w%d-%s", 100+c.Worker, rq.targetForm[:2])
+		if strings.HasSuffix(rq.targetForm, "dual") {
+			host = fmt.Sprintf("verif-w%d", 100+c.Worker)
+		}
+	case "v4nameport":
+		literalPort = 8083
+		host = fmt.Sprintf("verif-w%d-v4:%d", 100+c.Worker, literalPort)
+	case "v4port0":
+		badLiteralPort = "0"
+		host = fmt.Sprintf("%s:0", addr)
+	case "v6brport0":
+		badLiteralPort = "0"
+		host = fmt.Sprintf("[%s]:0", addr)
+	case "v4port65536":
+		badLiteralPort = "65536"
+		host = fmt.Sprintf("%s:65536", addr)
 	}
 	params := traceroute.TracerouteParams{Hostname: host, Port: rq.port, Protocol: rq.proto, MinTTL: rq.minTTL, MaxTTL: rq.maxTTL, Delay: 1,
 		Timeout: 40 * time.Millisecond, TCPMethod: traceroute.TCPMethod(rq.method), WantV6: v6, TracerouteQueries: 1, E2eQueries: 0}
@@ -251,8 +278,12 @@ func runC19(c *fw.Ctx, id string, rq c19Req) {
 	if proto == "tcp" && method != "syn" && method != "sack" && method != "prefer_sack" && method != "syn_socket" {
 		unrep = append(unrep, fmt.Sprintf("tcp method=%q", rq.method))
 	}
-	if proto != "icmp" && literalPort == 0 && rq.port != 0 && (rq.port < 1 || rq.port > 65535) {
+	if proto != "icmp" && literalPort == 0 && badLiteralPort == "" && rq.port != 0 && (rq.port < 1 || rq.port > 65535) {
 		unrep = append(unrep, fmt.Sprintf("port=%d", rq.port))
+	}
+	if badLiteralPort != "" {
+		// only an omitted port PARAMETER means "default"; a literal that spells port 0 / 65536 cannot be honoured
+		unrep = append(unrep, "literal-port="+badLiteralPort)
 	}
 	outcome := "rejected"
 	if rerr == nil {
@@ -260,6 +291,7 @@ func runC19(c *fw.Ctx, id string, rq c19Req) {
 	}
 	env.monitors(id)
 	c.Count("requests_"+outcome, 1)
+	c.Count(outcome+"_target_"+rq.targetForm, 1)
 	c.Nontrivial(fmt.Sprintf("%s/%s/%s-%s/port-%s/%s/http%v/%s", proto, rq.method, ttlClass(minTTL), ttlClass(rq.maxTTL), portClass(rq.port), rq.targetForm, rq.viaHTTP, outcome))
 	detail := map[string]any{"request": rq.String(), "error": fmt.Sprint(rerr), "probes_on_wire": len(ems)}
 	if rerr != nil {
@@ -337,4 +369,66 @@ func runC19(c *fw.Ctx, id string, rq c19Req) {
 		c.Violate("C19", fmt.Sprintf("ttl-range-not-honoured/%s-%s", ttlClass(minTTL), ttlClass(rq.maxTTL)), fmt.Sprintf("%s: %s succeeded but probed %d TTLs spanning [%d,%d] instead of exactly [%d,%d]", id, rq, len(got), lo, hi, minTTL, rq.maxTTL), detail)
 	}
 	c.Sample(map[string]any{"request": rq.String(), "ttls_on_wire": len(got), "outcome": outcome})
+}
+
+func runC19SackMixed(c *fw.Ctx, id, method string, q, e2e int) {
+	resetProcessState()
+	target := netip.AddrFrom4([4]byte{10, 204, byte(160 + c.Worker), 9})
+	port := uint16(23000 + c.Worker)
+	const maxTTL = 4
+	params := traceroute.TracerouteParams{Hostname: target.String(), Port: int(port), Protocol: "tcp", MinTTL: 1, MaxTTL: maxTTL, Delay: 5,
+		Timeout: 300 * time.Millisecond, TCPMethod: traceroute.TCPMethod(method), TracerouteQueries: q, E2eQueries: e2e}
+	env, err := newReqEnv(c, params, target, port, true)
+	if err != nil {
+		c.Inconclusive(err.Error())
+		return
+	}
+	defer env.close()
+	env.peer.SackPerm = true
+	env.modelFor = func(k int, e *simEnv) *pathModel { return flowPath(k, e, 0, false, 2*time.Millisecond) } // routers only: all TTLs probed
+	_, rerr := env.run(context.Background())
+	env.monitors(id)
+	if rerr != nil {
+		c.Count("sack_mixed_rejected", 1)
+		return
+	}
+	env.w.Lock()
+	byHandle := map[int][]*simnet.Emission{}
+	for _, em := range env.w.Emissions {
+		byHandle[em.Handle] = append(byHandle[em.Handle], em)
+	}
+	env.w.Unlock()
+	sackRuns, synE2e, other := 0, 0, 0
+	for _, ems := range byHandle {
+		syn, seg := 0, 0
+		ttls := map[int]int{}
+		for _, em := range ems {
+			if em.Pkt == nil || em.Pkt.Proto != 6 {
+				other++
+				continue
+			}
+			ttls[int(em.Pkt.TTL)]++
+			if em.Pkt.TCPFlags&0x02 != 0 {
+				syn++
+			} else {
+				seg++
+			}
+		}
+		full := len(ttls) == maxTTL
+		for t := 1; t <= maxTTL && full; t++ {
+			full = ttls[t] == 1
+		}
+		switch {
+		case seg > 0 && syn == 0 && full:
+			sackRuns++
+		case syn > 0 && seg == 0 && len(ttls) == 1 && ttls[maxTTL] == 1:
+			synE2e++
+		default:
+			other++
+		}
+	}
+	c.Nontrivial(fmt.Sprintf("sack-mixed/%s/q%d-e%d", method, q, e2e))
+	if sackRuns != q || synE2e != e2e || other != 0 {
+		c.Violate("C19", "wrong-kind/tcp-mixed/"+method, fmt.Sprintf("%s: tcp method %q with %d runs and %d end-to-end probes against a SACK-capable target put on the wire: %d SACK runs over TTL 1..%d, %d single SYN probes at TTL %d, %d other senders", id, method, q, e2e, sackRuns, maxTTL, synE2e, maxTTL, other), nil)
+	}
 }
